@@ -24,11 +24,22 @@ LeavesOf(fam) ==
     [] fam = "tuple"  -> {TString, TNumber, LS("x"), Uni(<<TString, TUndef>>)}
     [] fam = "union"  -> {TString, LS("a"), LS("b"), LN("1"), LB(TRUE), TNull,
                           Obj(<<Prop("k", LS("x"), FALSE), Prop("a", TString, FALSE)>>, <<>>),
-                          Obj(<<Prop("k", LS("y"), FALSE), Prop("b", TNumber, FALSE)>>, <<>>)}
+                          Obj(<<Prop("k", LS("y"), FALSE), Prop("b", TNumber, FALSE)>>, <<>>),
+                          \* nested objects under the same key in several members (intersection / union merging)
+                          Obj(<<Prop("n", Obj(<<Prop("x", TString, FALSE)>>, <<>>), FALSE)>>, <<>>),
+                          Obj(<<Prop("k", Uni(<<LS("x"), LS("w")>>), FALSE), Prop("a", TString, FALSE)>>, <<>>)}
     [] fam = "tpl"    -> {Tpl(<<TpLit("x"), TpNum>>), Tpl(<<TpStr, TpLit("-"), TpStr>>), Tpl(<<TpBool>>),
                           Tpl(<<TpLit("a"), TpOne(<<"b", "bc">>)>>), Tpl(<<TpNum, TpLit("px")>>),
                           Tpl(<<TpLit("a."), TpStr>>), Tpl(<<TpStr>>), Tpl(<<TpOne(<<"a", "ab">>), TpLit("c")>>)}
-    [] fam = "nonjson" -> {Prim("Date"), Prim("bigint"), TaT("Uint8Array"), TaT("Float64Array"), TString, TNumber}
+    [] fam = "nonjson" -> {Prim("Date"), Prim("bigint"), TaT("Uint8Array"), TaT("Float64Array"), TString, TNumber,
+                           \* leaves kept by several members of a non-discriminated union (parse merges the members' results)
+                           Uni(<<Obj(<<Prop("m", MapT(TString, TNumber), FALSE), Prop("a", TString, FALSE)>>, <<>>),
+                                 Obj(<<Prop("m", MapT(TString, TNumber), FALSE)>>, <<>>)>>),
+                           Uni(<<Obj(<<Prop("s", SetT(TString), FALSE), Prop("d", Prim("Date"), FALSE), Prop("a", TString, TRUE)>>, <<>>),
+                                 Obj(<<Prop("s", SetT(TString), FALSE), Prop("d", Prim("Date"), FALSE), Prop("b", TNumber, TRUE)>>, <<>>)>>),
+                           Uni(<<Obj(<<Prop("t", TaT("Uint8Array"), FALSE), Prop("g", Prim("bigint"), FALSE)>>, <<>>),
+                                 Obj(<<Prop("t", TaT("Uint8Array"), FALSE), Prop("n", TNumber, TRUE)>>, <<>>)>>),
+                           Uni(<<MapT(TString, TNumber), MapT(TString, TString)>>)}
     [] fam = "format" -> {SFmt(<<"f1">>), SFmt(<<"f1", "f2">>), NFmt(<<"n1">>), NFmt(<<"n1", "n2">>), TString}
     [] fam = "describe" -> {Obj(<<Prop("my-key", TString, FALSE), Prop("b", TNumber, TRUE)>>, <<>>),
                             Obj(<<Prop("a b", TString, TRUE)>>, <<>>),
@@ -43,7 +54,9 @@ PoolOf(fam) ==
     [] fam = "object" -> {TString, TNumber, Obj(<<Prop("b", TNumber, FALSE)>>, <<>>), Obj(<<Prop("a", TString, TRUE)>>, <<>>)}
     [] fam = "tuple"  -> {TString, TNumber}
     [] fam = "union"  -> {TString, LS("b"), TNull, Obj(<<Prop("k", LS("z"), FALSE)>>, <<>>),
-                          Obj(<<Prop("k", LS("constructor"), FALSE), Prop("c", TString, TRUE)>>, <<>>)}
+                          Obj(<<Prop("k", LS("constructor"), FALSE), Prop("c", TString, TRUE)>>, <<>>),
+                          Obj(<<Prop("n", Obj(<<Prop("y", TNumber, FALSE)>>, <<>>), FALSE)>>, <<>>),
+                          Obj(<<Prop("n", Obj(<<Prop("x", TString, FALSE), Prop("y", TNumber, TRUE)>>, <<>>), FALSE), Prop("a", TString, TRUE)>>, <<>>)}
     [] fam = "tpl"    -> {TString, LS("x1")}
     [] fam = "nonjson" -> {TString, TNumber, Prim("Date")}
     [] fam = "format" -> {TString, TNumber}
